@@ -11,6 +11,8 @@ type Table struct {
 	Tag     Tag
 }
 
+var headTag = MustNewTag("head")
+
 // WriteTTF creates a single Truetype font file (.ttf) from the given [tables] slice,
 // which must be sorted by Tag
 func WriteTTF(tables []Table) []byte {
@@ -22,6 +24,11 @@ func WriteTTF(tables []Table) []byte {
 	tableOffset := introLength // the actual content will start after the header + table directory
 	for i, table := range tables {
 		cs := checksum(table.Content)
+		if table.Tag == headTag && len(table.Content) >= 12 {
+			// "the checksum of the 'head' table is computed with its checkSumAdjustment field set to 0"
+			// (the field itself is left as given: the content of the tables is written unchanged)
+			cs -= binary.BigEndian.Uint32(table.Content[8:])
+		}
 		tableLength := uint32(len(table.Content))
 
 		slice := buffer[otfHeaderSize+i*otfEntrySize:]
